@@ -66,15 +66,16 @@ def _check_main(run, P):
 
     run.rule("C04.guardeval", "evaluate_condition evaluates the statement's guard "
              "afresh on every call", minimum=1)
-    _guardeval(run, P)
+    run.do(_guardeval, run, P)
     C = P.cls(EC)
-    _post(run, P, C)
-    _front(run, P, C)
-    _scope(run, P, C)
-    _mark(run, P, C)
-    _reset(run, P, C)
-    _sinks(run, P)
-    _attrs(run, P, C)
+    run.do(_post, run, P, C)
+    run.do(_skipsets, run, P, C)
+    run.do(_front, run, P, C)
+    run.do(_scope, run, P, C)
+    run.do(_mark, run, P, C)
+    run.do(_reset, run, P, C)
+    run.do(_sinks, run, P)
+    run.do(_attrs, run, P, C)
 
 
 def _guardeval(run, P):
@@ -178,6 +179,87 @@ def _post(run, P, C):
                "statement behind it in the plan: the requested statement runs before "
                "its dependency (a -> b -> {out, x}, x requested while a runs: a, x, b, "
                "out); re-planning without removal runs it twice")
+
+
+def _skipsets(run, P, C):
+    """Whatever shape the traversal in update_plan has (recursive or with an
+    explicit stack): a statement may be passed over only because it is *done*
+    - executed, or already put on the new part of the plan - never because it
+    was merely seen."""
+    from ..engine.srcmodel import _always_leaves
+    up = C.methods["update_plan"]
+    units = [up] + list(up.nested.values())
+    # the list that becomes the new front of the plan
+    batch = None
+    for s_ in ast.walk(up.node):
+        if isinstance(s_, ast.Assign) and any(dotted(t) == "self.plan" for t in s_.targets) \
+                and isinstance(s_.value, ast.BinOp):
+            for side in (s_.value.left, s_.value.right):
+                if isinstance(side, ast.Name):
+                    batch = side.id
+    if batch is None:
+        raise AnalysisError("update_plan: the list joined to self.plan not found")
+    emits = [x for u in units for x in ast.walk(u.node)
+             if isinstance(x, ast.Call) and isinstance(x.func, ast.Attribute)
+             and x.func.attr == "append" and dotted(x.func.value) == batch and x.args]
+    if not emits:
+        raise AnalysisError("update_plan: nothing is appended to the new part of the plan")
+
+    def block_of(u, node):
+        for n in ast.walk(u.node):
+            for fld in ("body", "orelse", "finalbody"):
+                blk = getattr(n, fld, None)
+                if isinstance(blk, list) and any(any(y is node for y in ast.walk(b)) for b in blk
+                                                 if not isinstance(b, (ast.If, ast.For, ast.While,
+                                                                       ast.With, ast.Try,
+                                                                       ast.FunctionDef))):
+                    return blk
+        return []
+
+    def grows_only_on_emission(name):
+        adds = [(u, x) for u in units for x in ast.walk(u.node)
+                if isinstance(x, ast.Call) and isinstance(x.func, ast.Attribute)
+                and x.func.attr in ("add", "append", "update", "extend") and dotted(x.func.value) == name]
+        if not adds:
+            return False
+        for u, x in adds:
+            blk = block_of(u, x)
+            arg = norm(x.args[0]) if x.args else None
+            if not any(any(e is y for y in ast.walk(b)) and norm(e.args[0]) == arg
+                       for b in blk for e in emits):
+                return False
+        return True
+
+    n = 0
+    for u in units:
+        for t in ast.walk(u.node):
+            if not isinstance(t, ast.If):
+                continue
+            test = t.test
+            neg = False
+            if isinstance(test, ast.UnaryOp) and isinstance(test.op, ast.Not):
+                test, neg = test.operand, True
+            if not (isinstance(test, ast.Compare) and len(test.ops) == 1
+                    and isinstance(test.ops[0], (ast.In, ast.NotIn))):
+                continue
+            member = isinstance(test.ops[0], ast.In) != neg
+            arm = t.body if member else t.orelse
+            if not arm or not _always_leaves(arm):
+                continue
+            if any(any(e is y for y in ast.walk(b)) for b in arm for e in emits):
+                continue                  # second visit: the statement is put on the plan here
+            cont = dotted(test.comparators[0])
+            ok = cont in ("self.executed_ids", batch) or (cont is not None and "." not in cont
+                                                         and grows_only_on_emission(cont))
+            n += 1
+            run.ob("C04.post", u, t, ok,
+                   construct=f"a statement is passed over when it is in '{cont}', which holds "
+                             f"only statements that are executed or already on the new plan",
+                   why="a statement that was only seen (pushed, being expanded) is not yet in "
+                       "front of what needs it: skipping it there plans a statement before "
+                       "one of its dependencies (n -> {t, s}, t -> s)")
+    if n < 2:
+        raise AnalysisError("update_plan: the done / already-planned exits were not found")
 
 
 def _front(run, P, C):
